@@ -182,6 +182,28 @@ Definition call_builtin (st : rstate) (f : string) (vs : list lval) : outcome (r
     | [] => OErr st "bad argument #1 to 'tostring' (value expected)"
     | _ => OUnsup "tostring of a table"
     end
+  else if String.eqb f "string.find" then
+    (* string.find(s, pattern): only patterns without magic characters (plain search) *)
+    match vs with
+    | [LStr s; LStr p] =>
+        if existsb (fun c => has_char c p) ["^"; "$"; "("; ")"; "%"; "."; "["; "]"; "*"; "+"; "-"; "?"]%char
+        then OUnsup "string.find with a pattern"
+        else match sindex p s with
+             | Some i => OK (st, LNum (Z.of_nat (S i)))
+             | None => OK (st, LNil)
+             end
+    | _ => OUnsup "string.find argument forms"
+    end
+  else if String.eqb f "string.sub" then
+    match vs with
+    | [LStr s; LNum i; LNum j] =>
+        if ((1 <=? i) && (0 <=? j))%Z
+        then OK (st, LStr (stake (Z.to_nat (j - i + 1)) (sdrop (Z.to_nat (i - 1)) s)))
+        else OUnsup "string.sub with non-positive indices"
+    | [LStr s; LNum i] =>
+        if (1 <=? i)%Z then OK (st, LStr (sdrop (Z.to_nat (i - 1)) s)) else OUnsup "string.sub with non-positive indices"
+    | _ => OUnsup "string.sub argument forms"
+    end
   else OUnsup ("function not modelled: " ++ f).
 
 Definition num_cmp (op : binop) (x y : Z) : bool :=
@@ -234,8 +256,19 @@ Fixpoint eval (fuel : nat) (st : rstate) (e : env) (x : expr) {struct fuel} : ou
           do (st2, vk) <- eval f st1 e k;
           do v <- lua_index st2 va vk; OK (st2, v)
       | ECall fn args =>
-          do (st1, vs) <- eval_list st args;
-          call_builtin st1 fn vs
+          (* f(a, b, unpack(t)): a call to unpack in LAST position is expanded to the elements of t *)
+          match rev args with
+          | ECall "unpack" [t] :: rinit =>
+              do (st1, vs) <- eval_list st (rev rinit);
+              do (st2, vt) <- eval f st1 e t;
+              match vt with
+              | LTab l => if has_nil l then OUnsup "unpack of a table with holes" else call_builtin st2 fn (vs ++ l)%list
+              | _ => OErr st2 "bad argument #1 to 'unpack' (table expected)"
+              end
+          | _ =>
+              do (st1, vs) <- eval_list st args;
+              call_builtin st1 fn vs
+          end
       | EBin BAnd a b =>
           do (st1, va) <- eval f st e a;
           if truthy va then eval f st1 e b else OK (st1, va)
